@@ -24,7 +24,7 @@ where
         );
     }
     // There is two additional bytes that are not covered by the header size
-    let header = reader.read_bytes((header_size + 2) as usize)?;
+    let header = reader.read_bytes(header_size as usize + 2)?;
     let mut images = vec![];
 
     match blp_header.mipmap_locator {
